@@ -30,6 +30,7 @@ def run(ctx):
         [(4, 4000, 0), (8, 3000, 0), (12, 2000, 0), (16, 1500, 0), (6, 3000, 1), (12, 2000, 1), (3, 4000, 0), (2, 4000, 1)])]
     runs.append(["quiet", str(ctx.seed), "2000" if ctx.thorough else "300"])
     runs.append(["reenter", str(ctx.seed), "1500" if ctx.thorough else "150"])
+    runs.append(["mixed", str(ctx.seed), "600" if ctx.thorough else "80"])
     runs.append(["f9"])
     procs, paths, items, overlap = [], [], 0, 0
     for i, args in enumerate(runs):
